@@ -12,8 +12,19 @@ EXECUTING probes on both sides of the boundary (DESIGN.md section 4, C20):
             (a) hands position-coded bytes through every mirrored struct to a generated C reader and back
                 (C writer -> Rust reader), and
             (b) drives the real library through the binding's public API (crc, pid, tf, trajectories,
-                regression, version) and compares bit for bit with the same computation done in C.
+                regression, version) and compares bit for bit with the same computation done in C, and
+            (c) WRAPPER EQUIVALENCE by twin execution (harness/rs_equiv.rs, spliced into the child module): every
+                `pub fn` of every impl block, every free `pub fn`, every trait-impl fn and every `pub const` of
+                lib.rs is ENUMERATED from the source (enumerate_api) and must be covered: random histories of 10-40
+                calls per object (deterministic PRNG from VERIF_SEED); each call is applied through the wrapper and,
+                after restoring object + caller arrays, through the extern "C" function called directly (inline C
+                functions / macros / documented initialisation sequences through C shims compiled against the real
+                headers); result, object fields and caller arrays are compared bit for bit (all NaNs equal). CRC
+                eval is also compared with a bitwise reference written in Rust. A `pub fn` the module does not
+                cover, or never exercised, makes the run INCONCLUSIVE (evidence: uncovered_wrappers).
             Linked against the ASan/UBSan-instrumented library and run with the ASan runtime preloaded.
+            Build stages: probe + equivalence module -> probe alone (equivalence reported as not checked,
+            inconclusive) -> declarations only (lib.rs itself does not compile).
 """
 import os, re, json, subprocess, shutil, time, hashlib
 
@@ -242,7 +253,7 @@ pub mod verif_probe {
 '''
 
 
-def gen_rust(structs, fns, statics, xfer_structs, cfields, decl_only=False, real=8):
+def gen_rust(structs, fns, statics, xfer_structs, cfields, decl_only=False, real=8, twin=None):
     if decl_only:
         # fallback when the binding itself no longer compiles (e.g. a foreign declaration was changed but not its callers):
         # only the mirrored struct definitions and the foreign declarations, copied as text
@@ -266,6 +277,8 @@ def gen_rust(structs, fns, statics, xfer_structs, cfields, decl_only=False, real
         o.append('        fn vfc_write_%s(p: *mut u8);' % s)
     if not decl_only:
         o.append(CALLS_EXTERN)
+        if twin:
+            o.append(TWIN_EXTERN)
     o.append('    }')
     o.append('    pub fn tables() {')
     for s in structs:
@@ -319,12 +332,22 @@ def gen_rust(structs, fns, statics, xfer_structs, cfields, decl_only=False, real
         o.append('        }')
     o.append('    } }')
     o.append(CALLS_RUST)
+    if twin:
+        o.append(gen_fields(structs))
+        o.append(twin)
+        o.append('}')
+        o.append('fn main() { verif_probe::tables(); verif_probe::transfer(); verif_probe::calls();\n'
+                 '    let a: Vec<String> = std::env::args().collect();\n'
+                 '    let seed: u64 = a.get(1).and_then(|x| x.parse().ok()).unwrap_or(1);\n'
+                 '    let nhist: usize = a.get(2).and_then(|x| x.parse().ok()).unwrap_or(10);\n'
+                 '    verif_probe::equiv(seed, nhist); }')
+        return '\n'.join(o)
     o.append('}')
     o.append('fn main() { verif_probe::tables(); verif_probe::transfer(); verif_probe::calls(); }')
     return '\n'.join(o)
 
 
-def gen_c_helper(xfer, cfields, headers):
+def gen_c_helper(xfer, cfields, headers, twin=True):
     o = ['#include <string.h>', '#include <stddef.h>'] + ['#include "a/%s"' % h for h in headers]
     for s in xfer:
         fl = cfields[s]
@@ -337,6 +360,8 @@ def gen_c_helper(xfer, cfields, headers):
             o.append('    b = (unsigned char *)&p->%s; for (j = 0; j < sizeof(p->%s); ++j) { b[j] = (unsigned char)(17 * (%d + 1) + j); }' % (f, f, k))
         o.append('}')
     o.append(CALLS_C)
+    if twin:
+        o.append(TWIN_C)
     return '\n'.join(o) + '\n'
 
 
@@ -480,6 +505,179 @@ CALLS_RUST = r'''
 '''
 
 
+# ------------------------------------------------------------------ wrapper-equivalence monitor (twin execution)
+# C side of the twins that have no exported function: inline functions (hpf, lpf), initialisation macros and the
+# documented initialisation sequences of the constructors, enum values, the version constants.
+TWIN_C = r"""
+#include <string.h>
+#include "a/hpf.h"
+#include "a/lpf.h"
+#include "a/mf.h"
+#include "a/pid.h"
+#include "a/pid_fuzzy.h"
+#include "a/pid_neuro.h"
+#include "a/regress_linear.h"
+#include "a/regress_simple.h"
+#include "a/version.h"
+void vft_zero(void *p, size_t n) { memset(p, 0, n); }
+void vft_hpf_new(a_hpf *c, a_real fc, a_real ts) { a_hpf_init(c, a_hpf_gen(fc, ts)); }
+void vft_hpf_gen(a_hpf *c, a_real fc, a_real ts) { c->alpha = a_hpf_gen(fc, ts); }
+a_real vft_hpf_iter(a_hpf *c, a_real x) { return a_hpf_iter(c, x); }
+void vft_hpf_zero(a_hpf *c) { a_hpf_zero(c); }
+void vft_lpf_new(a_lpf *c, a_real fc, a_real ts) { a_lpf_init(c, a_lpf_gen(fc, ts)); }
+void vft_lpf_gen(a_lpf *c, a_real fc, a_real ts) { c->alpha = a_lpf_gen(fc, ts); }
+a_real vft_lpf_iter(a_lpf *c, a_real x) { return a_lpf_iter(c, x); }
+void vft_lpf_zero(a_lpf *c) { a_lpf_zero(c); }
+static void vft_pid_defaults(a_pid *c)
+{
+    c->kp = 0; c->ki = 0; c->kd = 0;
+    c->summax = +A_REAL_INF; c->summin = -A_REAL_INF; c->outmax = +A_REAL_INF; c->outmin = -A_REAL_INF;
+}
+void vft_pid_new(a_pid *c) { vft_pid_defaults(c); a_pid_init(c); }
+void vft_pid_fuzzy_new(a_pid_fuzzy *c)
+{
+    vft_pid_defaults(&c->pid);
+    c->me = 0; c->mec = 0; c->mkp = 0; c->mki = 0; c->mkd = 0; c->idx = 0; c->val = 0;
+    c->opr = a_pid_fuzzy_opr(A_PID_FUZZY_EQU);
+    c->kp = 0; c->ki = 0; c->kd = 0; c->nrule = 0; c->nfuzz = 0;
+    a_pid_fuzzy_init(c);
+}
+void vft_pid_neuro_new(a_pid_neuro *c)
+{
+    vft_pid_defaults(&c->pid);
+    c->k = 0; c->wp = 0; c->wi = 0; c->wd = 0;
+    a_pid_neuro_init(c);
+}
+size_t vft_pid_fuzzy_bfuzz_size(size_t n) { return A_PID_FUZZY_BFUZZ(n); }
+void vft_regress_simple_new(a_regress_simple *c, a_real coef, a_real bias) { a_regress_simple_init(c, coef, bias); }
+void vft_regress_linear_new(a_regress_linear *c, a_real *p, size_t n, a_real bias) { a_regress_linear_init(c, p, n, bias); }
+void vft_regress_linear_set_coef(a_regress_linear *c, a_real *p, size_t n) { a_regress_linear_init(c, p, n, c->bias); }
+void vft_tf_new(a_tf *c, unsigned nn, a_real const *np, a_real *in, unsigned dn, a_real const *dp, a_real *out) { a_tf_init(c, nn, np, in, dn, dp, out); }
+void vft_trajpoly3_new(a_trajpoly3 *c, a_real ts, a_real p0, a_real p1, a_real v0, a_real v1) { a_trajpoly3_gen(c, ts, p0, p1, v0, v1); }
+void vft_trajpoly5_new(a_trajpoly5 *c, a_real ts, a_real p0, a_real p1, a_real v0, a_real v1, a_real a0, a_real a1) { a_trajpoly5_gen(c, ts, p0, p1, v0, v1, a0, a1); }
+void vft_trajpoly7_new(a_trajpoly7 *c, a_real ts, a_real p0, a_real p1, a_real v0, a_real v1, a_real a0, a_real a1, a_real j0, a_real j1) { a_trajpoly7_gen(c, ts, p0, p1, v0, v1, a0, a1, j0, j1); }
+void vft_version_new(a_version *c, unsigned major, unsigned minor, unsigned third) { a_version v = A_VERSION_3(major, minor, third); *c = v; }
+unsigned vft_version_lib(int i) { return i == 0 ? a_version_major : i == 1 ? a_version_minor : i == 2 ? a_version_patch : (unsigned)a_version_tweak; }
+int vft_const(int i)
+{
+    switch (i)
+    {
+    case 0: return A_MF_NUL; case 1: return A_MF_GAUSS; case 2: return A_MF_GAUSS2; case 3: return A_MF_GBELL; case 4: return A_MF_SIG;
+    case 5: return A_MF_DSIG; case 6: return A_MF_PSIG; case 7: return A_MF_TRAP; case 8: return A_MF_TRI; case 9: return A_MF_LINS;
+    case 10: return A_MF_LINZ; case 11: return A_MF_S; case 12: return A_MF_Z; case 13: return A_MF_PI;
+    case 20: return A_PID_FUZZY_CAP; case 21: return A_PID_FUZZY_CAP_ALGEBRA; case 22: return A_PID_FUZZY_CAP_BOUNDED; case 23: return A_PID_FUZZY_CUP;
+    case 24: return A_PID_FUZZY_CUP_ALGEBRA; case 25: return A_PID_FUZZY_CUP_BOUNDED; case 26: return A_PID_FUZZY_EQU;
+    default: return -12345;
+    }
+}
+"""
+TWIN_EXTERN = """
+        fn vft_zero(p: *mut u8, n: usize);
+        fn vft_hpf_new(c: *mut u8, fc: real, ts: real);
+        fn vft_hpf_gen(c: *mut u8, fc: real, ts: real);
+        fn vft_hpf_iter(c: *mut u8, x: real) -> real;
+        fn vft_hpf_zero(c: *mut u8);
+        fn vft_lpf_new(c: *mut u8, fc: real, ts: real);
+        fn vft_lpf_gen(c: *mut u8, fc: real, ts: real);
+        fn vft_lpf_iter(c: *mut u8, x: real) -> real;
+        fn vft_lpf_zero(c: *mut u8);
+        fn vft_pid_new(c: *mut u8);
+        fn vft_pid_fuzzy_new(c: *mut u8);
+        fn vft_pid_neuro_new(c: *mut u8);
+        fn vft_pid_fuzzy_bfuzz_size(n: usize) -> usize;
+        fn vft_regress_simple_new(c: *mut u8, coef: real, bias: real);
+        fn vft_regress_linear_new(c: *mut u8, p: *mut real, n: usize, bias: real);
+        fn vft_regress_linear_set_coef(c: *mut u8, p: *mut real, n: usize);
+        fn vft_tf_new(c: *mut u8, nn: c_uint, np: *const real, inp: *mut real, dn: c_uint, dp: *const real, out: *mut real);
+        fn vft_trajpoly3_new(c: *mut u8, ts: real, p0: real, p1: real, v0: real, v1: real);
+        fn vft_trajpoly5_new(c: *mut u8, ts: real, p0: real, p1: real, v0: real, v1: real, a0: real, a1: real);
+        fn vft_trajpoly7_new(c: *mut u8, ts: real, p0: real, p1: real, v0: real, v1: real, a0: real, a1: real, j0: real, j1: real);
+        fn vft_version_new(c: *mut u8, major: c_uint, minor: c_uint, third: c_uint);
+        fn vft_version_lib(i: c_int) -> c_uint;
+        fn vft_const(i: c_int) -> c_int;
+"""
+
+
+def enumerate_api(text):
+    """every `pub fn` (free, in a `pub mod`, in an inherent impl), every fn of a trait impl, and every `pub const` of a module,
+    found by walking the brace structure of the comment-stripped source. Returns {name: kind}."""
+    src = strip_comments(text)
+    # neutralise string/char literals so that braces inside them are not structure
+    src = re.sub(r'b?"(?:\\.|[^"\\])*"', '""', src)
+    src = re.sub(r"b?'(?:\\.|[^'\\])'", "' '", src)
+    out = {}
+    stack = [('root', '')]
+    head = ''
+    pd = 0  # depth of ( and [ : a ';' inside `[real; 4]` does not end an item
+    for ch in src:
+        if ch in '([':
+            pd += 1
+        elif ch in ')]':
+            pd -= 1
+        if ch == '{':
+            h = re.sub(r'#\[[^\]]*\]', ' ', head)
+            h = ' '.join(h.split())
+            ctx = ('other', '')
+            m = re.search(r'(?:^|\s)(pub(?:\([^)]*\))?\s+)?mod\s+(\w+)$', h)
+            mi = re.search(r'(?:^|\s)impl(?:<[^>]*>)?\s+(?:([\w:]+)\s+for\s+)?(\w+)$', h)
+            mf = re.search(r'(?:^|\s)(pub(?:\([^)]*\))?\s+)?(?:const\s+|unsafe\s+|extern\s+""\s+)*fn\s+(\w+)\s*[<(]', h)
+            if re.search(r'extern\s+""$', h):
+                ctx = ('extern', '')
+            elif mf:
+                kind, owner = stack[-1]
+                name, is_pub = mf.group(2), bool(mf.group(1))
+                if kind == 'root' and is_pub:
+                    out[name] = 'fn'
+                elif kind == 'mod' and is_pub:
+                    out[owner + '::' + name] = 'fn'
+                elif kind == 'impl' and is_pub:
+                    out[owner + '::' + name] = 'fn'
+                elif kind == 'trait-impl':
+                    out[owner + '::' + name] = 'trait-fn'
+                ctx = ('fn', name)
+            elif mi:
+                ctx = ('trait-impl', mi.group(2)) if mi.group(1) else ('impl', mi.group(2))
+            elif m:
+                ctx = ('mod', (stack[-1][1] + '::' if stack[-1][0] == 'mod' else '') + m.group(2))
+            stack.append(ctx)
+            head = ''
+        elif ch == '}':
+            if len(stack) > 1:
+                stack.pop()
+            head = ''
+        elif ch == ';' and pd == 0:
+            h = ' '.join(re.sub(r'#\[[^\]]*\]', ' ', head).split())
+            mc = re.match(r'pub(?:\([^)]*\))?\s+const\s+(\w+)\s*:', h)
+            if mc and stack[-1][0] == 'mod':
+                out[stack[-1][1] + '::' + mc.group(1)] = 'const'
+            head = ''
+        else:
+            head += ch
+    return out
+
+
+def gen_fields(structs):
+    """trait Fields: the bytes of every field in declaration order (padding excluded); real fields with all NaNs made equal"""
+    names = set(s['name'] for s in structs)
+    o = ['    pub trait Fields { unsafe fn fb(p: *const Self, out: &mut Vec<u64>); }',
+         '    pub unsafe fn raw(p: *const u8, n: usize, out: &mut Vec<u64>) { let mut i = 0usize; while i + 8 <= n { out.push(core::ptr::read_unaligned(p.add(i) as *const u64)); i += 8; } '
+         'let mut t: u64 = 0; let mut k = 0; while i < n { t |= (*p.add(i) as u64) << (8 * k); i += 1; k += 1; } if k > 0 { out.push(t); } }']
+    for s in structs:
+        o.append('    impl Fields for %s { unsafe fn fb(p: *const Self, out: &mut Vec<u64>) {' % s['name'])
+        for fn_, ty in s['fields']:
+            if ty == 'real':
+                o.append('        out.push(canon((*p).%s));' % fn_)
+            elif re.match(r'\[\s*real\s*;\s*\w+\s*\]$', ty):
+                o.append('        for x in (*p).%s.iter() { out.push(canon(*x)); }' % fn_)
+            elif ty in names:
+                o.append('        <%s as Fields>::fb(core::ptr::addr_of!((*p).%s), out);' % (ty, fn_))
+            else:
+                o.append('        raw(core::ptr::addr_of!((*p).%s) as *const u8, core::mem::size_of::<%s>(), out);' % (fn_, ty))
+        o.append('    } }')
+    return '\n'.join(o)
+
+
+
 def classes_compatible(a, b):
     """ABI-level equality; pointee sizes are compared only when both are known and > 1"""
     if a == b:
@@ -520,7 +718,10 @@ def parse_tables(text):
 ALIASES = {'alpha': 'alpha_', 'alpha_': 'alpha'}  # the one documented rename (version.alpha <-> a_version.alpha_)
 
 
-def one_width(real, tag, outdir, ctx, viols, stats, samples):
+NHIST = dict(quick=300, thorough=4000)  # histories per struct and real width
+
+
+def one_width(real, tag, outdir, ctx, viols, stats, samples, tier='quick', seed=1):
     REPO, VERIF = ctx['REPO'], ctx['VERIF']
     Inc = ctx['Inconclusive']
     wdir = os.path.join(outdir, tag)
@@ -590,44 +791,119 @@ def one_width(real, tag, outdir, ctx, viols, stats, samples):
     # ---- Rust probe
     xfer = [n for n in have_struct]
     helper = os.path.join(wdir, 'helper.c')
-    with open(helper, 'w') as f:
-        f.write(gen_c_helper(xfer, cfields, headers))
-    r = sh(['gcc'] + SAN + ['-c', helper, '-o', os.path.join(wdir, 'helper.o')] + inc)
-    if r.returncode:
-        raise Inc('C helper does not compile: ' + r.stdout[-2000:])
+    twin_text = open(os.path.join(VERIF, 'harness', 'rs_equiv.rs')).read()
+    twin_off = None  # reason why the wrapper-equivalence module is not part of this run
+    for with_twin in (True, False):
+        with open(helper, 'w') as f:
+            f.write(gen_c_helper(xfer, cfields, headers, twin=with_twin))
+        r = sh(['gcc'] + SAN + ['-c', helper, '-o', os.path.join(wdir, 'helper.o')] + inc)
+        if r.returncode == 0:
+            break
+        if with_twin:
+            twin_off = 'the C twins (inline functions, initialisation sequences) do not compile against the current headers: ' + r.stdout[-1200:]
+        else:
+            raise Inc('C helper does not compile: ' + r.stdout[-2000:])
     r = sh(['ar', 'rcs', os.path.join(wdir, 'libvfhelper.a'), os.path.join(wdir, 'helper.o')])
     rs = os.path.join(wdir, 'probe.rs')
-    with open(rs, 'w') as f:
-        f.write(text + '\n' + gen_rust(structs, [x for x in fns if x['name'] not in undeclared and x['name'] in syms],
-                                       [x for x in statics if x['name'] not in undeclared and x['name'] in syms], xfer, cfields))
+    use_fns = [x for x in fns if x['name'] not in undeclared and x['name'] in syms]
+    use_statics = [x for x in statics if x['name'] not in undeclared and x['name'] in syms]
     cmd = ['rustc', '--edition', '2018', '--crate-type', 'bin', '--crate-name', 'vfprobe', '--cfg', 'feature="std"'] + \
           (['--cfg', 'feature="float"'] if real == 4 else []) + \
           ['-A', 'warnings', '-C', 'opt-level=0', rs, '-o', os.path.join(wdir, 'probe_rs'), '-L', 'native=' + libdir, '-L', 'native=' + wdir,
            '-l', 'static=vfhelper', '-l', 'static=a', '-C', 'link-self-contained=no', '-C', 'link-arg=-fuse-ld=bfd',
            '-C', 'link-arg=-lasan', '-C', 'link-arg=-lubsan', '-C', 'link-arg=-lm']
-    r = sh(cmd, cwd=wdir, env=dict(os.environ, CARGO_NET_OFFLINE='true'))
+    # stage 1: everything incl. the wrapper-equivalence module; stage 2: the probe as it was before that module existed
+    # (layouts, declarations, transfers, known-answer calls); stage 3: declarations only
+    r = None
+    if twin_off is None:
+        with open(rs, 'w') as f:
+            f.write(text + '\n' + gen_rust(structs, use_fns, use_statics, xfer, cfields, twin=twin_text))
+        r = sh(cmd, cwd=wdir, env=dict(os.environ, CARGO_NET_OFFLINE='true'))
+        if r.returncode:
+            twin_off = 'the wrapper-equivalence module does not build against this lib.rs (a wrapper was renamed or its signature changed): ' + r.stdout[-2500:]
+    if twin_off is not None:
+        with open(rs, 'w') as f:
+            f.write(text + '\n' + gen_rust(structs, use_fns, use_statics, xfer, cfields))
+        r = sh(cmd, cwd=wdir, env=dict(os.environ, CARGO_NET_OFFLINE='true'))
     decl_only_reason = None
     if r.returncode:
         # the binding (or the probe) does not compile: fall back to a declarations-only probe so that a changed foreign
         # declaration is still compared; if that finds nothing the run is inconclusive
         decl_only_reason = r.stdout[-3000:]
         with open(rs, 'w') as f:
-            f.write(gen_rust(structs, [x for x in fns if x['name'] not in undeclared and x['name'] in syms],
-                             [x for x in statics if x['name'] not in undeclared and x['name'] in syms], xfer, cfields, decl_only=True, real=real))
+            f.write(gen_rust(structs, use_fns, use_statics, xfer, cfields, decl_only=True, real=real))
         r2 = sh(['rustc', '--edition', '2018', '--crate-type', 'bin', '--crate-name', 'vfprobe', '-A', 'warnings', '-C', 'opt-level=0', rs,
                  '-o', os.path.join(wdir, 'probe_rs')], cwd=wdir, env=dict(os.environ, CARGO_NET_OFFLINE='true'))
         if r2.returncode:
             raise Inc('Rust probe does not build: ' + decl_only_reason + '\n--- declarations-only fallback: ' + r2.stdout[-1500:])
     asan = sh(['gcc', '-print-file-name=libasan.so']).stdout.strip()
-    rr = subprocess.run([os.path.join(wdir, 'probe_rs')], stdout=subprocess.PIPE, stderr=subprocess.PIPE, text=True, cwd=wdir,
+    nhist = NHIST[tier]
+    rr = subprocess.run([os.path.join(wdir, 'probe_rs'), str(seed), str(nhist)], stdout=subprocess.PIPE, stderr=subprocess.PIPE, text=True, cwd=wdir,
                         env=dict(os.environ, LD_PRELOAD=asan, ASAN_OPTIONS='detect_leaks=0:exitcode=99:abort_on_error=0', UBSAN_OPTIONS='print_stacktrace=1:halt_on_error=1:exitcode=98') if not decl_only_reason else dict(os.environ))
     rst, rfd, rfn, rsv, rad, rxf, rcalls = parse_tables(rr.stdout)
+    tw_lines = [l for l in rr.stdout.splitlines() if l.startswith('TW')]
+    tw_began = any(l.startswith('TWBEGIN') for l in tw_lines)
     if rr.returncode:
         last = [p for p in rxf if p[0] == 'XFER-BEGIN']
-        where = ('during transfer of %s (%s)' % (last[-1][1], last[-1][2])) if last and not rcalls else 'during the call-through'
         m = re.search(r'ERROR: AddressSanitizer: ([\w-]+)', rr.stderr) or re.search(r'runtime error: (.*)', rr.stderr)
-        viols.append(dict(key='abi/probe/sanitizer-report/%s' % (last[-1][1] if last and not rcalls else 'call-through'), config=tag,
-                          msg='Rust probe died rc=%d %s: %s' % (rr.returncode, where, m.group(0) if m else rr.stderr[-300:]), stderr=rr.stderr[-8000:]))
+        diedl = [l for l in tw_lines if l.startswith('TWDIED')]
+        if tw_began:
+            # died inside the wrapper-equivalence module: attribute to the wrapper being twinned (hooks print TWDIED)
+            if diedl:
+                d = diedl[-1].split()
+                key, where = 'api/%s/probe-died-in-%s' % (d[1], d[2]), ' '.join(d[3:])
+            else:
+                key, where = 'api/probe/died', 'no position marker'
+            pan = [l for l in tw_lines if l.startswith('TWPANIC')]
+            viols.append(dict(key=key, config=tag, msg='Rust probe died rc=%d during the wrapper-equivalence histories (%s): %s %s' % (
+                rr.returncode, where, m.group(0) if m else rr.stderr[-300:], pan[-1] if pan else ''), stderr=rr.stderr[-8000:]))
+        else:
+            where = ('during transfer of %s (%s)' % (last[-1][1], last[-1][2])) if last and not rcalls else 'during the call-through'
+            viols.append(dict(key='abi/probe/sanitizer-report/%s' % (last[-1][1] if last and not rcalls else 'call-through'), config=tag,
+                              msg='Rust probe died rc=%d %s: %s' % (rr.returncode, where, m.group(0) if m else rr.stderr[-300:]), stderr=rr.stderr[-8000:]))
+    # ---- wrapper equivalence: enumerate the public API from the source, join with what the module covered and exercised
+    api = enumerate_api(text)
+    tw = stats['twin'].setdefault(tag, dict(counts={}, cfn={}, histories={}, violations=0))
+    for l in tw_lines:
+        q = l.split()
+        if q[0] == 'TW' and len(q) >= 4:
+            tw['counts'][q[1]] = tw['counts'].get(q[1], 0) + int(q[2])
+            tw['cfn'].setdefault(q[1], [])
+            if q[3] not in tw['cfn'][q[1]]:
+                tw['cfn'][q[1]].append(q[3])
+        elif q[0] == 'TWH' and len(q) >= 3:
+            tw['histories'][q[1]] = int(q[2])
+        elif q[0] == 'TWX':
+            stats['twin_problems'].append('%s: the module exercised %s without registering it' % (tag, ' '.join(q[2:])))
+        elif q[0] == 'TWV':
+            key, _, rest = l[4:].partition(' | ')
+            tw['violations'] += 1
+            viols.append(dict(key=key.strip(), config=tag, msg=rest.strip()[:6000]))
+            if len(samples) < 14:
+                samples.append('%s %s' % (tag, l[:300]))
+    if decl_only_reason is None:
+        stats['api_enumerated'] = len(api)
+        if twin_off is not None:
+            stats['twin_problems'].append('%s: wrapper equivalence NOT checked - %s' % (tag, twin_off))
+            covered = set(re.findall(r'\("([\w:]+)", "[^"]+"\)', twin_text.split('pub const COVER', 1)[-1].split('];', 1)[0]))
+            stats['uncovered_wrappers'].update(n for n in api if n not in covered)
+        elif rr.returncode == 0:
+            if not any(l.startswith('TWEND') for l in tw_lines):
+                stats['twin_problems'].append('%s: the wrapper-equivalence module did not report completion' % tag)
+            unc = sorted(n for n in api if n not in tw['counts'])
+            zero = sorted(n for n in api if tw['counts'].get(n, 1) == 0)
+            stats['uncovered_wrappers'].update(unc)
+            stats['unexercised_wrappers'].update(zero)
+            if unc:
+                stats['twin_problems'].append('%s: lib.rs has public items the wrapper-equivalence module does not cover: %s' % (tag, ', '.join(unc)))
+            if zero:
+                stats['twin_problems'].append('%s: covered wrappers never exercised in this run: %s' % (tag, ', '.join(zero)))
+            for n in api:
+                if tw['counts'].get(n, 0) > 0:
+                    stats['distinct'].add('twin ' + n)
+            stats['evaluations'] += sum(tw['counts'].values())
+            if len(samples) < 20:
+                samples.append('%s twin calls compared: %s' % (tag, ', '.join('%s=%d' % (n, tw['counts'][n]) for n in ('crc64::gen_lsb', 'crc64::eval', 'pid::pos', 'pid_fuzzy::run', 'tf::set_den', 'version::parse') if n in tw['counts'])))
     # ---- compare structs
     for s in structs:
         n = s['name']
@@ -724,14 +1000,17 @@ def one_width(real, tag, outdir, ctx, viols, stats, samples):
 def run(prop, tier, seed, outdir, replay, ctx):
     spec = __import__('props').PROPS[prop]
     viols, samples = [], []
-    stats = dict(evaluations=0, distinct=set(), transfers=0, calls=0, structs_without_c_definition=set())
+    stats = dict(evaluations=0, distinct=set(), transfers=0, calls=0, structs_without_c_definition=set(), twin={}, twin_problems=[],
+                 uncovered_wrappers=set(), unexercised_wrappers=set())
     widths = [(8, 'f64'), (4, 'f32')]  # both real widths in both tiers: an f32-only layout change must not wait for thorough
     inconclusive = []
     try:
         for real, tag in widths:
-            one_width(real, tag, outdir, ctx, viols, stats, samples)
+            one_width(real, tag, outdir, ctx, viols, stats, samples, tier, seed)
     except ctx['Inconclusive'] as e:
         inconclusive.append(str(e)[:3000])
+    for pbm in stats['twin_problems']:
+        inconclusive.append(pbm[:3000])
     for v in viols:
         v.setdefault('case', 0)
         v.setdefault('log', '')
@@ -740,7 +1019,12 @@ def run(prop, tier, seed, outdir, replay, ctx):
                     structs_compared=stats.get('structs', 0), functions_compared=stats.get('functions', 0), statics_compared=stats.get('statics', 0),
                     cross_boundary_transfers=stats['transfers'], call_through_checks=stats['calls'],
                     rust_structs_without_c_struct=sorted(stats['structs_without_c_definition']), widths=[t for _, t in widths], exhaustive=True,
-                    exhaustive_scope='every #[repr(C)] struct and every extern "C" item found in src/lib.rs', sanitizer_reports=sum(1 for v in viols if 'sanitizer' in v['key']))
+                    exhaustive_scope='every #[repr(C)] struct and every extern "C" item found in src/lib.rs; every pub fn / trait-impl fn / pub const found in src/lib.rs for the wrapper equivalence',
+                    public_api_items_enumerated=stats.get('api_enumerated', 0), uncovered_wrappers=sorted(stats['uncovered_wrappers']),
+                    unexercised_wrappers=sorted(stats['unexercised_wrappers']), histories_per_struct_and_width=NHIST[tier],
+                    wrapper_twin_calls={t: dict(sorted(d['counts'].items())) for t, d in stats['twin'].items()},
+                    wrapper_twin_counterpart={n: c for d in stats['twin'].values() for n, c in sorted(d['cfn'].items())},
+                    wrapper_histories={t: d['histories'] for t, d in stats['twin'].items()}, sanitizer_reports=sum(1 for v in viols if 'sanitizer' in v['key']))
     if replay:
         rp = json.load(open(replay))
         hit = [v for v in viols if v['key'] == rp['key']]
